@@ -27,7 +27,10 @@ class Job:
 
     def __init__(self, name, harness, kind="proof", enforce=None, replace=(), loop_contracts=False,
                  unwind=None, unwindset=(), defines=(), flags=(), timeout=180, tier="quick", finding=None,
-                 note="", no_std_checks=False, solver=None, object_bits=None, replay=None, expect_fail=()):
+                 note="", no_std_checks=False, solver=None, object_bits=None, replay=None, expect_fail=(),
+                 search=None, props=None):
+        self.search = search        # name of a kind='search' job run on failure to find a concrete input
+        self.props = props          # restrict the job to these properties (default: the kernel's SERVES)
         self.name = name
         self.harness = harness
         self.kind = kind
